@@ -29,6 +29,14 @@ CLAIMED["C04"] = dict(
    text="PackingSpace.validate run natively on a symbolic instance (real constructor) and an arbitrary integer matrix of the packing shape (every cell any value of the instance dtype, n_bins 0..rows+1), up to 2 (thorough 3) rows: on every accepting path the solver shows the declarative feasibility oracle holds, on every rejecting path that it fails; type/shape/dtype/instance-identity clauses on four concrete configurations of the real code.",
    note="Trusted: z3; array shim; check_int_range re-implemented from its documentation. Outside: more rows; the text round trip is claimed under C19. Two genuine defects found by this check were repaired (see known_findings.json).",
    design="4/C04")
+CLAIMED["C02"] = dict(
+   text="For each of the seven objectives the real __init__/evaluate/lower_bound/upper_bound/to_bin_count run on a symbolic instance (real constructor; lower_bound_bins any value in 1..k) and an arbitrary FEASIBLE packing (declarative oracle: unsorted rows, any bin numbering, sparse last bin) of up to 3 rows; per path the solver shows value = closed form of the documented definition (column-wise skyline), lower_bound() <= value <= upper_bound(), to_bin_count(value) = bins and 1 <= value-(bins-1)*scale <= scale, which gives strict ordering by bins. Counting objectives with sizes up to 10^12; area/skyline objectives with bin dims <= 6 (4 for 3 rows under a skyline) through the exact Int->BV back-end.",
+   note="Trusted: z3 (QF_BV + LIA portfolio), array shim, ceil_div re-implemented. Quick tier: one item type per row, LowestSkyline with 3 rows only in thorough. Outside: more rows, larger dims for nonlinear objectives, packing_result cross-objective agreement.",
+   design="4/C02")
+CLAIMED["C14"] = dict(
+   text="Differential harness: the real decoders (public API, destination packing and scratch arrays starting as arbitrary garbage) against an executable reference model written from the module documentation (harness/ibl_reference.py), both executed by the same engine on the same symbolic instance (sizes 1..10^12) for every signed permutation of up to 3 (thorough 4) items; all six columns of every row and the bin count must agree on every path. Because the reference never reads the garbage, agreement implies independence from earlier decodings; a concrete reuse test of one encoder object and destination is run in addition.",
+   note="Trusted: z3; the reference model is my reading of the documentation (kept short, exercised by the doctest examples through the reuse job); numpy/numba model as in C01. Quick tier enumerates permutations up to relabelling of interchangeable rows.",
+   design="4/C14")
 NA = {
  "C12": "quantifies over complete optimisation runs (moptipy Execution/Process, RNG streams, log files, budgets): no bounded symbolic encoding within reach; its solver-decidable ingredients are claimed under C01, C02, C04-C06, C19",
 }
